@@ -32,6 +32,9 @@ structure Stream where
   /-- direction of the connection carrying it (must not matter) -/
   connInbound : Bool
   alive : Bool := true
+  /-- the protocol negotiation has finished but the host has not yet recorded the protocol on the stream and called the
+      handler it looked up: for the mode switch this is not a DHT stream yet -/
+  pending : Bool := false
   deriving Repr, DecidableEq
 
 structure St where
@@ -47,12 +50,16 @@ inductive Ev where
   | reach (r : Reach)
   /-- a DHT stream with the given id is opened on a connection (inbound ones go through the handler) -/
   | openStream (id : Nat) (inbound connInbound : Bool)
+  /-- an inbound stream finishes its protocol negotiation (the handler is looked up now) -/
+  | negotiate (id : Nat) (connInbound : Bool)
+  /-- … and is handed to that handler, which checks the mode before it reads the first message -/
+  | deliver (id : Nat)
   /-- the remote sends a request on the stream -/
   | request (id : Nat)
   deriving Repr, DecidableEq
 
 inductive Out where
-  | none | nohandler | opened | answered | reset | dead
+  | none | nohandler | opened | answered | reset | dead | delivered | nothing
   deriving Repr, DecidableEq
 
 def setMode (s : St) (m : Mode) : St :=
@@ -61,18 +68,26 @@ def setMode (s : St) (m : Mode) : St :=
   | .server => { s with mode := .server, handlers := true }
   | .client =>
     { s with mode := .client, handlers := false,
-             streams := s.streams.map fun st => if st.inbound then { st with alive := false } else st }
+             streams := s.streams.map fun st => if st.inbound && !st.pending then { st with alive := false } else st }
 
 def step (s : St) : Ev → St × Out
   | .reach r => if isAuto s.opt then (setMode s (target s.opt r), .none) else (s, .none)
   | .openStream id inbound connInbound =>
     if inbound && !s.handlers then (s, .nohandler)
-    else ({ s with streams := s.streams ++ [⟨id, inbound, connInbound, true⟩] }, .opened)
+    else ({ s with streams := s.streams ++ [⟨id, inbound, connInbound, true, false⟩] }, .opened)
+  | .negotiate id connInbound =>
+    if !s.handlers then (s, .nohandler)
+    else ({ s with streams := s.streams ++ [⟨id, true, connInbound, true, true⟩] }, .opened)
+  | .deliver id =>
+    if s.streams.any (fun st => st.id == id && st.pending) then
+      ({ s with streams := s.streams.map fun st =>
+          if st.id == id && st.pending then { st with pending := false, alive := st.alive && s.mode == .server } else st }, .delivered)
+    else (s, .nothing)
   | .request id =>
     match s.streams.find? (·.id == id) with
     | none => (s, .dead)
     | some st =>
-      if !st.alive || !st.inbound then (s, .dead) else
+      if !st.alive || !st.inbound || st.pending then (s, .dead) else
       -- dht_net.go: the mode is checked before every message is read
       if s.mode == .server then (s, .answered)
       else ({ s with streams := s.streams.map fun x => if x.id == id then { x with alive := false } else x }, .reset)
